@@ -92,7 +92,7 @@ def field_cases(rng, tier):
                     ks = [["cmp", vals.rnd_comparison(rng, ("A", "B", "C"))] for _k in range(rng.randrange(1, 3))]
                 ctx.append({"criteria": ks, "cal": rnd_cal(rng, maxexp)})
         default = rnd_cal(rng, maxexp) if rng.random() < 0.5 else None
-        enc = {"t": "num", "size": size, "kind": rng.choice(["unsigned", "signed"]), "order": "msb", "default": default, "context": ctx}
+        enc = {"t": "num", "size": size, "kind": rng.choice(["unsigned", "signed", "twosComplement", "signMagnitude", "onesComplement"]), "order": "msb", "default": default, "context": ctx}
         t = {"name": "T", "kind": kind, "enc": enc}
         if kind == "float":
             enc.update(size=32, kind="IEEE754")
